@@ -23,11 +23,11 @@ pub fn checks() -> Vec<Check> {
             id: "C47",
             title: "Relay resource limits hold",
             level: Level::Exploration,
-            rule: "A real relay::Behaviour (limits max_reservations 1..6, per peer 1..3, max_circuits 1..6, per peer 1..3, reservation and circuit durations of seconds, rate limiters off or default) runs in a real Swarm on the simulated network. 2..5 scripted clients with up to 3 connections each send RESERVE and CONNECT requests in raw hop frames (destinations answer the relay's stop request with OK, a refusal, or silence and hold the circuit stream), close connections and let virtual time pass (reservation expiry, circuit duration). The relay's own events are folded (ReservationReqAccepted new / ReservationClosed / ReservationTimedOut; CircuitReqAccepted / CircuitClosed) and after every event: active reservations per peer <= max_reservations_per_peer, in total <= max_reservations, circuits involving any one peer (as source or destination) <= max_circuits_per_peer, in total <= max_circuits. Non-trivial = at least one request accepted and one denied with RESOURCE_LIMIT_EXCEEDED",
+            rule: "A real relay::Behaviour (limits max_reservations 1..6, per peer 1..3, max_circuits 1..6, per peer 1..3, reservation and circuit durations of seconds, rate limiters off or default) runs in a real Swarm on the simulated network. 2..5 scripted clients with up to 3 connections each send RESERVE and CONNECT requests in raw hop frames (destinations answer the relay's stop request with OK, a refusal, or silence and hold the circuit stream), close connections, have connections reset under them (fault transport_reset) and let virtual time pass (reservation expiry, circuit duration). The relay's own events are folded (ReservationReqAccepted new / ReservationClosed / ReservationTimedOut; CircuitReqAccepted / CircuitClosed) and after every event: active reservations per peer <= max_reservations_per_peer, in total <= max_reservations, circuits involving any one peer (as source or destination) <= max_circuits_per_peer, in total <= max_circuits. Non-trivial = at least one request accepted and one denied with RESOURCE_LIMIT_EXCEEDED",
             assumptions: &["security and muxing are the E2 stubs (the relay protocol runs over SimMuxer substreams negotiated by the real multistream-select)", "clients are scripted (raw frames), so the relay client code is not exercised"],
             real: &["relay::Behaviour + its connection handler (inbound hop, outbound stop, CopyFuture)", "Swarm, connection pool, multistream-select"],
             stub: &["transport/security/muxer -> SimTransport/SimMuxer", "relay clients -> scripted frames", "clock -> virtual"],
-            scenarios: vec![Scenario::new("relay-limits", 300, 30_000, relay_limits).profiles(NO_FAULTS)],
+            scenarios: vec![Scenario::new("relay-limits", 300, 30_000, relay_limits)],
         },
         Check {
             id: "C48",
@@ -167,6 +167,17 @@ fn relay_limits() -> SimResult {
                         let id = clients[c].conns[k];
                         clients[c].node.with(|b| b.open(rpeer, Some(id), OpenReq { tag, proto: HOP.into(), send: vec![hop_connect(&dst)], read: 1, after: After::Hold }));
                         pending_tags.push((tag, false));
+                    }
+                }
+                10 => {
+                    // fault: a connection dies under the relay (reservations on it and circuits through it must go)
+                    if fault("transport_reset", 500) {
+                        let c = net::conn_count();
+                        if c > 0 {
+                            net::reset_conn(choose(c));
+                        }
+                    } else {
+                        advance(Duration::from_secs(1));
                     }
                 }
                 _ => {
